@@ -76,14 +76,22 @@ func vC05Family(fam int, kinds int) {
 	}
 }
 
-//verif:harness prop=C05 quick=6 thorough=16
-//verif:bounds quick: shape families 0..5 (atoms, join/order of 2 atoms, complement of those); thorough: families 0..15 (up to 5 parts, depth 2); all coordinates and L symbolic in [0,2^40]
+//verif:harness prop=C05 quick=6 thorough=16 timeout=1500
+//verif:bounds quick: shape families 0..5 (atoms, join/order of 2 atoms, complement of those); thorough: families 0..15 (up to 5 parts, depth 2; the 5-part order without ambiguous spans, the 5-part join with ranged and point parts only); all coordinates and L symbolic in [0,2^40]
 func VH_C05_reverse_loc() {
 	n := vFamS1
 	if vTier() == 1 {
 		n = vFamS3
 	}
-	vC05Family(vShard(n), 4)
+	fam := vShard(n)
+	kinds := 4
+	switch fam {
+	case 12:
+		kinds = 2 // join of 5: the reduction forks per adjacent pair; all four kinds exceed the time budget
+	case 13:
+		kinds = 3
+	}
+	vC05Family(fam, kinds)
 }
 
 // ---- API level: reverse-complement preserves the extracted sequence ---------------------
